@@ -583,7 +583,44 @@ func (c *Check) noRequestMemo() {
 			})
 		}
 	}
-	c.Ob("R5", "the gateway packages keep no memo across requests (see violations otherwise)", token.NoPos, bad == 0 && n > 1000, "")
+	// request handlers write nothing that outlives the request: no store through a variable captured from the function
+	// that built the handler (it is shared by all concurrent requests, of all tenants)
+	nh := 0
+	for _, fn := range l.pkgFuncs("provider/gateway/rest") {
+		if fn.Parent() == nil || strings.HasSuffix(l.Fset.Position(fn.Pos()).Filename, "client.go") {
+			continue
+		}
+		sig := fn.Signature
+		if sig.Params().Len() != 2 || !strings.HasSuffix(sig.Params().At(0).Type().String(), "http.ResponseWriter") || !strings.HasSuffix(sig.Params().At(1).Type().String(), "http.Request") {
+			continue
+		}
+		nh++
+		for _, g := range fnAndClosures(fn) {
+			eachInstr(g, func(i ssa.Instruction) {
+				st, ok := i.(*ssa.Store)
+				if !ok {
+					return
+				}
+				addr := st.Addr
+				for {
+					switch x := addr.(type) {
+					case *ssa.FieldAddr:
+						addr = x.X
+						continue
+					case *ssa.IndexAddr:
+						addr = x.X
+						continue
+					}
+					break
+				}
+				if fv, isFV := addr.(*ssa.FreeVar); isFV && fv.Parent() == fn {
+					bad++
+					c.Ob("R5", "request handler "+fnName(fn)+" writes captured variable "+fv.Name(), st.Pos(), false, "state shared by all requests is written while serving one: a concurrent request of another tenant can be answered with this request's lease id / parameters")
+				}
+			})
+		}
+	}
+	c.Ob("R5", "the gateway packages keep no memo across requests (see violations otherwise)", token.NoPos, bad == 0 && n > 1000 && nh >= 8, "")
 	// the verifier gets the chain client itself
 	ncs := 0
 	for _, fn := range l.prodFuncs() {
